@@ -238,7 +238,9 @@ impl Color3f<Rgb> {
         };
         let h = h / 6.0;
         let l = (max + min) / 2.0;
-        let s = if l == 0.0 || l == 1.0 {
+        let s = if d == 0.0 || l == 0.0 || l == 1.0 {
+            // Grays have zero saturation; for a very dark gray the
+            // denominator below rounds to zero and 0/0 would give NaN
             0.0
         } else {
             // Rounding may make the quotient exceed one by an ulp
